@@ -195,6 +195,11 @@ Fixpoint eval (o : opts) (e : expr) : res parr :=
 Definition pgather (o : opts) (s : seq nat) (sigma : nat -> nat) (p : parr) : res parr :=
   clean o (Parr (names p) s (rows p) [seq gather 0 sigma (prodn s) c | c <- cols p]).
 
+(* ---- construct/monomial.py: identity coefficient matrix over the generated exponents ------ *)
+Definition pmonomial (ns : seq nat) (ix : seq (seq nat)) : parr :=
+  Parr ns [:: size ix] ix
+       [seq [seq (if i == k then 1 else 0) | i <- iota 0 (size ix)] | k <- iota 0 (size ix)].
+
 (* ---- canonical observation --------------------------------------------------- *)
 Definition mono := seq (nat * nat).      (* (variable, exponent > 0), sorted by variable *)
 Definition sparse (ns : seq nat) (r : seq nat) : mono :=
